@@ -310,7 +310,7 @@ func (c *Ctx) contractCall(fr *Frame, st *State, site ssa.Instruction, fn *ssa.F
 		g := post.evalTop(en)
 		c.assume(g.Term)
 	}
-	if c.prog.isLogg(c.fn) && c.dry == 0 && c.pure == 0 && (con.AssignsAll || len(con.Assigns) > 0) {
+	if c.prog.inRoot(c.fn) && c.dry == 0 && c.pure == 0 && (con.AssignsAll || len(con.Assigns) > 0) {
 		c.assumeInvariants(st)
 	}
 	return res, exits
@@ -381,6 +381,11 @@ func (c *Ctx) havocEverything(st *State) {
 	nx := c.fresh("next", "Int")
 	c.assumeAlways(app(">=", nx, next))
 	st.heap["$next"] = nx
+	if c.epochNext == nil {
+		c.epochNext = map[int]string{}
+	}
+	c.epochNext[st.epoch] = nx
+	c.epochNext[st.pepoch] = nx
 }
 
 // ghostLeaves: every scalar leaf of the specification-only variable "ghost" of the root package.
@@ -424,6 +429,10 @@ func (c *Ctx) havocEverythingButGhost(st *State) {
 	nx := c.fresh("next", "Int")
 	c.assumeAlways(app(">=", nx, next))
 	st.heap["$next"] = nx
+	if c.epochNext == nil {
+		c.epochNext = map[int]string{}
+	}
+	c.epochNext[st.epoch] = nx
 }
 
 // atCallEffects runs the top-level contract's "at call <callee> effect ghost.v = e" statements.
